@@ -16,4 +16,4 @@ Extraction "model.ml"
   recognize_http
   body_new encode_payload_v encode_packet_v decode_payload_v decode_packet_v resp_key resp_iv
   server_vdecode server_vencode client_vencode client_vdecode kdf16 auth_id_create seal_header open_header parse_header header_bytes fnv1a32
-  q_cipher q_protocol q_mode q_kind q_object q_kdf q_b64 q_keys q_user q_path.
+  q_cipher q_protocol q_mode q_kind q_object q_kdf q_b64 q_keys q_user q_path q_vmess.
